@@ -210,6 +210,7 @@ Proof.
       * split; [|apply cells_eq_refl].
         exists r. unfold set_full, set_staging, set_dbf ; st. split4; try assumption.
         intros Hf. unfold full_due in Hf; cbn in Hf. discriminate.
+      * split; [|apply cells_eq_refl]. exists r. split4; try assumption. intros Hf. congruence.
     + (* incremental path *)
       destruct (full_due_false s Hd) as [Hfn Hne].
       assert (H2' : cells_eq (apply_segs r (staging s)) (dbf s)) by (apply H2; reflexivity).
@@ -238,6 +239,7 @@ Proof.
         -- split; [|apply cells_eq_refl].
            exists r. unfold set_full, set_staging, set_dbf ; st. split4; try assumption.
            intros Hf. unfold full_due in Hf; cbn in Hf. discriminate.
+        -- split; [|apply cells_eq_refl]. exists r. split4; try assumption. intros _; exact H2'.
   - (* load *)
     cbn [fst apply_phys spec_step]. split; [|apply cells_eq_refl].
     exists r. unfold set_full, set_dbf, add_log ; st. split4.
